@@ -168,6 +168,7 @@ func encode(t *testing.T, fs []field) []byte {
 type stats struct {
 	Records  int            `json:"records"`
 	Vectors  int            `json:"vectors"`
+	Long     int            `json:"long_sequences"`
 	Random   int            `json:"random"`
 	Mutated  int            `json:"mutated"`
 	Outcomes map[string]int `json:"outcomes"`
@@ -453,6 +454,55 @@ func TestTrace(t *testing.T) {
 			r.call("unmarshal", raw, fs, "vec")
 		}
 	}
+
+	// 1b. long proposals: 70 / 200 / 1000 filler fields with the interesting fields at the END
+	raw0 := func(v string) json.RawMessage { return json.RawMessage(v) }
+	filler := func(n int, withScalars bool) []field {
+		fs := make([]field, 0, n+2)
+		for k := 0; k < n; k++ {
+			switch {
+			case withScalars && k%3 == 2:
+				fs = append(fs, field{Num: 6 + 4*(k%2), Wt: 0, V: raw0("[0,0,0,0,0,0,0,1]")}) // protocol / source version 1
+			case k%2 == 0:
+				fs = append(fs, field{Num: 13, Wt: 0, V: raw0("[0,0,0,0,0,0,0,0]")})
+			default:
+				fs = append(fs, field{Num: 14, Wt: 2, V: raw0(`{"n":1,"f":120,"b":[120]}`)})
+			}
+		}
+		return fs
+	}
+	nLong := 0
+	for i, tail := range vecs {
+		if len(tail) == 0 || len(tail) > 2 {
+			continue
+		}
+		var ns []int
+		switch {
+		case len(tail) == 1:
+			ns = []int{70, 200}
+		case i%tracefmt.EnvInt("VERIF_LONG_EVERY", 25) == 0:
+			ns = []int{70}
+		}
+		if i%400 == 0 {
+			ns = append(ns, 1000)
+		}
+		big := false
+		for _, f := range tail {
+			var a absBytes
+			if f.Wt == 2 && json.Unmarshal(f.V, &a) == nil && a.N > 64 { // 16 KiB payloads stay with the short vectors
+				big = true
+			}
+		}
+		if big {
+			continue
+		}
+		for _, n := range ns {
+			fs := append(filler(n, (i+n)%2 == 0), tail...)
+			r.call("unknown", encode(t, fs), fs, fmt.Sprintf("long:%d", n))
+			nLong++
+		}
+	}
+	st.Long = nLong
 
 	// 2. seeded random field sequences, half of them mutated at byte level
 	rng := rand.New(rand.NewSource(tracefmt.Seed()))
